@@ -39,7 +39,7 @@ CLAIMS['C18'] = dict(
          'the validity alias groups, REGISTERS and the sp/ip names are extracted from the MIR of each impl and compared name by name (about 2300 obligations: same names, same place for get and set, '
          'plain field read / plain store of `val`, distinct places for distinct canonical names, aliases memoize to a canonical name with the same place, validity honoured through both spellings, '
          'sp/ip accessors read the named place, every dispatcher arm delegates to its own variant\'s impl, get_register guards get_register_always with register_is_valid). All obligations are enumerated and '
-         'discharged on every run, which is a proof of the table-level statement given Rust\'s field-assignment semantics; it is exhaustive over names, not sampled. default_memoize_register is an exact-equality position() search returning the table\'s own spelling.',
+         'discharged on every run, which is a proof of the table-level statement given Rust\'s field-assignment semantics; it is exhaustive over names, not sampled. default_memoize_register is an exact-equality position() search returning the table\'s own spelling. The dispatcher-level enumerations are covered too: MinidumpContext::valid_registers is registers() filtered by the per-CPU register_is_valid (never a raw lookup in the validity set, which may hold aliases), and every arm of general_purpose_registers returns its own variant\'s REGISTERS (the Self type of the associated constant is read from MIR) or an equal list.',
     note='Trusted base: rustc nightly MIR construction (string-literal match lowering), the mirfacts extractor, the PathExplorer in py/mirq.py, Rust semantics of field assignment and slice indexing with constant indices. Values are never computed.',
     ref='DESIGN.md §3 C18')
 CLAIMS['C03'] = dict(
@@ -114,7 +114,7 @@ CLAIMS['C07'] = dict(
     text='Narrow claim: structural clauses of the STACK WIN semantics. The operator table of eval_win_expr (same rules as C06 on u32 plus `=` and `.undef`), the six predefined constants and their sources, the `@` search-start rule, '
          'the output alphabet (only eip esp ebp ebx esi edi reported), clearing before evaluation and framedata-before-fpo priority are extracted and checked; every register name handed to the FrameWalker interface must be a name the x86 context knows. '
          'The last rule exposes a genuine defect (names are cleared with a `$` prefix, so nothing is cleared and callee registers are forwarded); it is a recorded known finding because the obvious repair changes two existing CLI snapshots. '
-         'Two overflow panics in this code were repaired in /repo. Numeric results are not computed. FPO formula table (C07.6): for every path to every set_caller_register call in walk_with_stack_win_fpo the reaching definitions are substituted into the value and compared, as linear address forms, with the documented $eip/$esp/$ebp/%ebx formulae incl. the leftover-return-address skip; the branch conditions must be the documented decisions. C07.7: the grand-callee facts the FPO skip and .cbParams rest on (CfiStackWalker.has_grand_callee = grand_callee_frame.is_some(), grand_callee_parameter_size = its parameter_size or 0, accessors return the fields) are pinned field by field. C07.8: literals are parsed with i64 precision in both evaluators.',
+         'Two overflow panics in this code were repaired in /repo. Numeric results are not computed. FPO formula table (C07.6): for every path to every set_caller_register call in walk_with_stack_win_fpo the reaching definitions are substituted into the value and compared, as linear address forms, with the documented $eip/$esp/$ebp/%ebx formulae incl. the leftover-return-address skip; the branch conditions must be the documented decisions. C07.7: the grand-callee facts the FPO skip and .cbParams rest on (CfiStackWalker.has_grand_callee = grand_callee_frame.is_some(), grand_callee_parameter_size = its parameter_size or 0, accessors return the fields) are pinned field by field. C07.8: literals are parsed with i64 precision in both evaluators. C07.6 also bounds what each FPO path demands: a `?` on a callee register or stack read may sit only on the paths whose documented formula uses that input (esp always; eip on context frames; ebp only when the record passes it through; the saved-ebp slot only when the record allocates a base pointer).',
     note='Trusted: rustc MIR, u32::wrapping_* semantics. Table entries marked ASSUMPTION (32-bit callee registers) apply to the FPO arithmetic.',
     ref='DESIGN.md §3 C07')
 
@@ -123,7 +123,7 @@ CLAIMS['C04'] = dict(
     text='Narrow claim: necessary structural conditions only. Decided for every input: technique priority cfi > frame pointer > scan with each later technique guarded by frame.is_none() and no way back; technique labels; '
          'arm64.rs and arm64_old.rs are the same MIR modulo the context type; every register name the unwinders use exists in its context\'s tables and every name inserted into or tested against a validity set is the canonical (memoized) spelling; '
          'scan windows (40/160 words, 15 x 16 bytes on amd64 Windows, 1024 bytes on MIPS) equal the documented values. Two alias-spelling defects found by the last rule were repaired in /repo. '
-         'That the right frames come out of a given stack is behavioural and NOT decided: a fault inside a technique\'s arithmetic is invisible here. The x86 FPO technique is checked as a formula table (shared with C07.6): reaching definitions along every path to every set_caller_register call, compared as linear address forms with the documented formulae, and the two decisions compared with the documented ones. ARM64 pointer-authentication mask: all ones below the next power of two above max(2^47-1, end of the highest module) (C04.8). C04.9: the CfiStackWalker handed to the symbol file is built field by field from the callee frame. C04.10: a MIPS walk stays in one ABI - the 32/64-bit dispatch predicate is `flags contain CONTEXT_MIPS64 => n64`, and each scan hands the caller frame context flags that classify it like its callee (a genuine mips64 defect found by this rule was repaired in /repo). C04.11: the amd64 frame-pointer probe does not abort on a candidate-specific read. C04.12: the iOS-only ARM frame-pointer technique follows r7 (known finding).',
+         'That the right frames come out of a given stack is behavioural and NOT decided: a fault inside a technique\'s arithmetic is invisible here. The x86 FPO technique is checked as a formula table (shared with C07.6): reaching definitions along every path to every set_caller_register call, compared as linear address forms with the documented formulae, and the two decisions compared with the documented ones. ARM64 pointer-authentication mask: all ones below the next power of two above max(2^47-1, end of the highest module) (C04.8). C04.9: the CfiStackWalker handed to the symbol file is built field by field from the callee frame. C04.10: a MIPS walk stays in one ABI - the 32/64-bit dispatch predicate is `flags contain CONTEXT_MIPS64 => n64`, and each scan hands the caller frame context flags that classify it like its callee (a genuine mips64 defect found by this rule was repaired in /repo). C04.11: the amd64 frame-pointer probe does not abort on a candidate-specific read. C04.12: the iOS-only ARM frame-pointer technique follows r7 (known finding). C04.13: the OS preconditions of the frame-pointer techniques, decided by resolving every decision on system_info.os for each variant of enum Os in turn (discriminant switches, PartialEq against a variant, and the boolean flags `matches!` lowers to): the ARM technique reads registers and stack for Os::Ios only; the amd64 technique probes 15 further 16-byte slots (240 bytes of slack) for Os::Windows only and uses the plain layout for every other OS.',
     note='Trusted: rustc MIR, the C18 tables (reused). The twin comparison is order-sensitive over statements and terminators with unnamed locals anonymised; reordering independent statements in only one twin is reported.',
     ref='DESIGN.md §3 C04')
 CLAIMS['C08'] = dict(
@@ -137,7 +137,7 @@ CLAIMS['C10'] = dict(
     technique='consume/callback pairing by dominance, return-shape dataflow, transition-table equality of the sync and async parse loops; finite-domain abstract interpretation of the streaming loops (staleness bit)',
     text='Narrow claim: in SymbolFile::parse and parse_async every buf.consume(n) is dominated by callback(&buf.data()[..n]) with nothing touching the buffer in between and no other way for bytes to leave the window, so the bytes handed to the callback are exactly the consumed prefix; '
          'parse_more returns 0 or the length of the input trimmed after its last newline; the two loops have identical transition tables (every buffer / flag / return effect with its guard conditions), so HTTP chunking feeds the same state machine as a Read; the cache tee is a pure writer. '
-         'Equality of parse outcomes across chunk schedules is behavioural and not decided. The same boolean abstraction decides (C10.5) that fully_consumed is never tested for the end-of-input decision while bytes have arrived since it was last computed, for every chunking. Liveness analysis shows the remaining-input slice is the only local carried round parse_more\'s line loop (C10.6): no per-call state that a chunk boundary would reset. C10.8: every field tokeniser of the record parsers is evaluated on a line feed and must stop there. C10.9: recovery on a zero-length read only when the buffer is full (known finding).',
+         'Equality of parse outcomes across chunk schedules is behavioural and not decided. The same boolean abstraction decides (C10.5) that fully_consumed is never tested for the end-of-input decision while bytes have arrived since it was last computed, for every chunking. Liveness analysis shows the remaining-input slice is the only local carried round parse_more\'s line loop (C10.6): no per-call state that a chunk boundary would reset. C10.8: every field tokeniser of the record parsers is evaluated on a line feed and must stop there. C10.9: recovery on a zero-length read only when the buffer is full (known finding). C10.10: the capacity ladder INITIAL * K^i, folded from the with_capacity constant, the grow() step and the refusal test `new_cap > MAX` read from both loops, must reach at least 2 x 80 KiB, because a line is only guaranteed to fit in half the window.',
     note='Trusted: circular::Buffer (data / consume semantics), rustc MIR of the coroutine before the state transform.',
     ref='DESIGN.md §3 C10')
 CLAIMS['C11'] = dict(
